@@ -98,7 +98,7 @@ def run_one(workdir: Path, mod: str, site, translators):
                 "    except BaseException as e:\n"
                 "        res[g]='error'\n"
                 "print('@@'+json.dumps(res))\n")
-        env = dict(os.environ, GRID_REPO=str(workdir), GRID_VERIF_GEN_DRYRUN="1", OMP_NUM_THREADS="1",
+        env = dict(os.environ, GRID_REPO=str(workdir), PYTHONPATH=str(workdir / "src"), GRID_VERIF_GEN_DRYRUN="1", OMP_NUM_THREADS="1",
                    OPENBLAS_NUM_THREADS="1", PYTHONDONTWRITEBYTECODE="1")
         p = subprocess.run(["/venv/bin/python", "-c", code], cwd="/verif", env=env, capture_output=True, text=True, timeout=600)
         for l in p.stdout.splitlines():
